@@ -277,3 +277,6 @@ func detailsDiff(a, b *errorspb.EncodedErrorDetails) (string, string) {
 	}
 	return "", ""
 }
+
+// Bg returns the background context.
+func Bg() context.Context { return bg }
